@@ -52,7 +52,7 @@ def cfg_text(rng, idt, marker, rich=None):
 
 
 BROKEN_KINDS = ["syntax", "unknown_field", "bad_collision", "id_range", "no_default_mapping", "empty", "junk",
-                "velocity", "bad_note", "type_mismatch", "truncated"]
+                "velocity", "bad_note", "type_mismatch", "truncated", "decoder_panic"]
 
 
 def broken_text(rng, idt, marker, kind):
@@ -80,6 +80,11 @@ def broken_text(rng, idt, marker, kind):
         return good.replace("octave = 1", 'octave = "one"')
     if kind == "truncated":
         return good[:rng.randrange(5, max(6, len(good) - 5))]
+    if kind == "decoder_panic":     # well-formed TOML on which go-toml v2.0.3 panics (ParseData must turn that into an error: a bad file like any other)
+        hdr = 'collision_mode = "off"\n[defaults]\nmapping = "a"\nchannel = 1\n[[mapping]]\nname = "a"\n'
+        return rng.choice([hdr + '[[mapping.keys]]\n[mapping.keys.map]\nKEY_A = {a = 1}\n',
+                           hdr + '[[mapping.analog]]\n[mapping.analog.map]\nABS_X = {type = "cc", cc = 1979-05-27}\n',
+                           'collision_mode = 1979-05-27T07:32:00Z\n', '[[mapping.0]]\n'])
     raise ValueError(kind)
 
 
@@ -673,10 +678,9 @@ def run(run_):
     results = execute(run_, cases)
     if results is None:
         return
-    # a file on which the TOML decoder itself panics is the parser's business (C09), not this property's: leave those trees out
-    keep = [i for i, r in enumerate(results) if not any(v.get("panic") for v in r["verdicts"])]
-    excluded = len(cases) - len(keep)
-    cases, results = [cases[i] for i in keep], [results[i] for i in keep]
+    # a file on which ParseData itself panics (C09's business) is, for this property, a bad file like any other: the model treats it as
+    # "does not parse" and LoadDeviceConfigs must still isolate it (a crash of the whole load is reported by the load monitor)
+    excluded = 0
     ev = evaluate(cases, results)
     report(run_, cases, results, ev)
 
